@@ -3,7 +3,7 @@ import LokiModel.Fir.Subst
 # C39 — model of `ParametriseTransformation` (loki/transformations/parametrise.py) on FIR programs
 
 The Scheduler processes the units of a call tree in topological order (`Cfg.order`, taken from the real Scheduler and checked
-against it on every run).  A unit is an *entry point* (the driver, or a routine named in `entry_points`) and is processed with
+against it on every run).  A unit is an *entry point* (a driver — there may be several, `Cfg.roots` —, or a routine named in `entry_points`) and is processed with
 the user's dictionary `dic2p`, or it is processed with the dictionary its callers left in `item.trafo_data` (`{}` if none).
 `processUnit` follows `transform_subroutine` step by step:
 
@@ -38,6 +38,8 @@ structure Cfg where
   entry : Option (List String)
   printAbort : Bool
   order : List String
+  /-- units with role `driver` (seed routines of the Scheduler); `[]` stands for the main unit alone -/
+  roots : List String := []
 
 def pfx : String := "parametrised_"
 
@@ -52,7 +54,7 @@ def lookupCI (dic : Dic) (x : String) : Option Int := (dic.find? (fun kv => kv.1
 
 def isEntry (cfg : Cfg) (p : Program) (name : String) : Bool :=
   match cfg.entry with
-  | none => name == p.main
+  | none => if cfg.roots.isEmpty then name == p.main else cfg.roots.contains name
   | some es => es.contains name
 
 /-! ### step 1: guards -/
